@@ -402,6 +402,18 @@ func evalDoc(doc docgen.Doc, text string, o docOpts) (fs []docFinding, harness s
 
 func flattenKinds(d docgen.Doc) []string { return d.Kinds }
 
+// docGoTest renders a document case as a plain unit test for package pipeline_test.
+func docGoTest(text, note string) string {
+	return "// place in: module root (package pipeline_test)\nfunc TestReplayDoc(t *testing.T) {\n\tp, err := pipeline.Parse(strings.NewReader(" + strconv.Quote(text) + "))\n\tif err != nil && !warning.Is(err) {\n\t\tt.Fatal(err)\n\t}\n\tj, jerr := json.Marshal(p)\n\ty, yerr := yaml.Marshal(p)\n\tt.Logf(\"json=%s (%v)\\nyaml=%s (%v)\", j, jerr, y, yerr)\n\t// observed by the check: " + strings.ReplaceAll(clipStr(note, 600), "\n", " ") + "\n}\n"
+}
+
+func clipStr(s string, n int) string {
+	if len(s) > n {
+		return s[:n] + "…"
+	}
+	return s
+}
+
 type docCase struct {
 	Choices      []int    `json:"choices"`
 	Presentation string   `json:"presentation"`
@@ -446,7 +458,8 @@ func runDocs(w *report.W, label string, focus []string, bound int, presentations
 			}
 			for _, f := range fs {
 				w.Violate(report.Violation{Kind: f.kind, Case: fmt.Sprintf("[%s] %s: %s", pres, doc.Descr, strings.TrimSpace(text)), Detail: f.detail,
-					Size: len(g.Trace)*10 + len(text)/40, Replay: docCase{Choices: append([]int{}, x.Choices...), Presentation: pres, Descr: doc.Descr, Text: text, Focus: focus}})
+					GoTest: docGoTest(text, f.kind+": "+f.detail),
+					Size:   len(g.Trace)*10 + len(text)/40, Replay: docCase{Choices: append([]int{}, x.Choices...), Presentation: pres, Descr: doc.Descr, Text: text, Focus: focus}})
 			}
 		}
 		if execs%256 == 0 && w.Expired() {
